@@ -88,6 +88,14 @@ PREFIX.update({
     'a12.credentials': ('alice', (1, 2), lambda: [W.p_locate()], {'credentials': [_CRED]}),
     'a12.ids_all': ('alice', (1, 2), lambda: [W.p_locate()], {'batch_ids': 'all'}),
 })
+# requests refused at the header under OTHER versions than 1.2 (a refused request, too, may leave nothing
+# behind - not even the version it announced)
+PREFIX.update({
+    'a14.async': ('alice', (1, 4), lambda: [W.p_create()], {'async_indicator': True}),
+    'a10.undo': ('alice', (1, 0), lambda: [W.p_create()], {'error_option': BEO.UNDO}),
+    'b20.stale': ('bob', (2, 0), lambda: [W.p_create()], {'time_stamp': W.T0 - 1000}),
+    'b13.async': ('bob', (1, 3), lambda: [W.p_locate()], {'async_indicator': True}),
+})
 # the identifier family: the same object read, changed and destroyed under its canonical identifier and
 # under other spellings the server accepts for it ('05', ' 5'); whatever an engine remembers about an
 # object may not outlive what later requests do to it
@@ -150,9 +158,15 @@ for _u in ('alice', 'bob'):
     _add(_t + 'get1', _u, (1, 2), lambda: [W.p_get('1')])
     _add(_t + 'get2', _u, (1, 2), lambda: [W.p_get('2')])
 # version-sensitive
-for _v in ((1, 0), (1, 3), (1, 4), (2, 0)):
+for _v in ((1, 0), (1, 1), (1, 2), (1, 3), (1, 4), (2, 0)):
     _add('a%d%d.attr_list1' % _v, 'alice', _v, lambda: [W.p_get_attribute_list('1')])
     _add('a%d%d.get_attributes1' % _v, 'alice', _v, lambda: [W.p_get_attributes('1')])
+for _v in ((1, 0), (1, 2), (1, 3), (1, 4), (2, 0)):
+    # attributes only some versions define, supplied at creation: accepted or refused by the version of
+    # THIS request
+    _add('a%d%d.create_sensitive' % _v, 'alice', _v, lambda: [W.p_create(W.sym_attrs(sensitive=True))])
+    if _v < (2, 0):
+        _add('a%d%d.create_policy' % _v, 'alice', _v, lambda: [W.p_create(W.sym_attrs(policy='default'))])
 for _v in ((1, 0), (1, 1), (1, 2)):
     _add('a%d%d.query' % _v, 'alice', _v, lambda: [W.p_query()])
 _add('a11.encrypt1', 'alice', (1, 1), lambda: [W.p_encrypt('1')])
